@@ -2149,6 +2149,29 @@ class ResolveOverlappingDivisions(Expr):
         return dsk
 
 
+def _row_source(expr):
+    """The expression whose rows ``expr`` has, following projections and
+    operations that keep the rows of their only frame operand"""
+    while True:
+        if isinstance(expr, (Projection, Index)):
+            expr = expr.frame
+            continue
+        if expr._is_length_preserving:
+            frames = [dep for dep in expr.dependencies() if dep.ndim > 0]
+            if len(frames) == 1:
+                expr = frames[0]
+                continue
+        return expr
+
+
+def _operands_share_rows(expr):
+    """Whether all frame operands of an elementwise ``expr`` hold the same rows,
+    so that the result is as long as any one of them.  Operands with different
+    rows are aligned on their labels and give the union."""
+    frames = [dep for dep in expr.dependencies() if dep.ndim > 0]
+    return len({_row_source(dep)._name for dep in frames}) <= 1
+
+
 class Lengths(Expr):
     """Returns a tuple of partition lengths"""
 
@@ -2162,7 +2185,7 @@ class Lengths(Expr):
         return (None, None)
 
     def _simplify_down(self):
-        if isinstance(self.frame, Elemwise):
+        if isinstance(self.frame, Elemwise) and _operands_share_rows(self.frame):
             child = max(self.frame.dependencies(), key=lambda expr: expr.npartitions)
             return Lengths(child)
 
